@@ -31,7 +31,15 @@ Emit ==
         dcoef |-> IF sc.d >= 1 THEN DerCoef(xi, sc.d, c) ELSE <<>>,
         dvalues |-> IF sc.d >= 1 THEN Tup([j \in 1..Len(pts) |-> SplineAt(xi, sc.d - 1, DerCoef(xi, sc.d, c), pts[j])]) ELSE <<>>,
         ddvalues |-> IF sc.d >= 2 THEN Tup([j \in 1..Len(pts) |-> SplineAt(xi, sc.d - 2, DerCoef(xi, sc.d - 1, DerCoef(xi, sc.d, c)), pts[j])]) ELSE <<>>,
-        greville |-> Greville(xi, sc.d)]))
+        greville |-> Greville(xi, sc.d),
+        \* integral of c(t)^2 over normalised time by the radau-2 collocation quadrature on every interval (nodes 1/3 and 1,
+        \* weights 3/4 and 1/4): what DirectCollocation(degree=2, scheme='radau') makes of ocp.integral(v^2) for a B-spline signal v
+        quad2 |-> SumSeq(Tup([k \in 1..sc.N |->
+                     LET h == Sub(xi[k + 1], xi[k])
+                         v1 == SplineAt(xi, sc.d, c, Add(xi[k], Mul(Q(1, 3), h)))
+                         \* (end of the interval seen from inside: a degree-0 spline is constant on the interval and jumps at its end)
+                         v2 == IF sc.d = 0 THEN v1 ELSE SplineAt(xi, sc.d, c, xi[k + 1])
+                     IN Mul(h, Add(Mul(Q(3, 4), Mul(v1, v1)), Mul(Q(1, 4), Mul(v2, v2))))]))]))
 OkOrBad(a, b) == IsBad(a) \/ IsBad(b) \/ Eq(a, b)
 SplineLaws ==
   LET xi == XiOf(sc.g, sc.N)
